@@ -48,6 +48,10 @@ class handle_results:
     ensures = lambda self, result, skipfirst: [
         Inv(self),
         self._time_shift is old(self._time_shift),
+        self.variables is None or self.variables is old(self.variables) or fresh(self.variables),
+        self.simulation_parameters is None
+        or self.simulation_parameters is old(self.simulation_parameters)
+        or fresh(self.simulation_parameters),
         implies(
             has_type(old(result.value), "TimeCourse"),
             self.variables is not None
@@ -85,6 +89,11 @@ class simulate:
     ensures = lambda self, t_end, steps, result: [
         result is self,
         Inv(self),
+        self.variables is None or self.variables is old(self.variables) or fresh(self.variables),
+        self.simulation_parameters is None
+        or self.simulation_parameters is old(self.simulation_parameters)
+        or fresh(self.simulation_parameters),
+        self._time_shift is old(self._time_shift),
         # an earlier failure blocks the simulator: nothing is recorded
         implies(
             old(len(self._errors)) > 0,
@@ -109,3 +118,78 @@ class simulate:
         maybe(self.variables),
         maybe(self.simulation_parameters),
     ]
+
+
+# ----------------------------------------------------------------------------- protocols (C14)
+
+
+def protocol_ok(p):
+    # cumulative step ends: positive and strictly increasing (make_protocol with positive durations)
+    return forall(
+        lambda i: implies(
+            0 <= i and i < n_rows(p),
+            row_secs(p, i) > 0 and implies(i > 0, row_secs(p, i) > row_secs(p, i - 1)),
+        ),
+        "int",
+    )
+
+
+def end_of(p, t0, i):
+    # absolute end of step i-1 (t0 before the first step)
+    return t0 if i == 0 else t0 + row_secs(p, i - 1)
+
+
+@contract("mxlpy.model:Model.update_parameters")
+class model_update_parameters:
+    trusted = "plural edit = sequence of single edits (C03); contract in progress (contracts/wip_model_plural.py); here only its frame is used"
+    may_raise = (KeyError,)
+    # coarse frame: the value/unit/source attributes of records (no other object has such attributes)
+    modifies = lambda self, parameters: [field(self, "_cache"), field_map("value"), field_map("unit"), field_map("source")]
+
+
+@contract("mxlpy.simulator:Simulator.simulate_protocol")
+class simulate_protocol:
+    requires = lambda self, protocol, time_points_per_step: Inv(self) and protocol_ok(protocol)
+    may_raise = (KeyError,)  # a protocol column that is not a model parameter
+    ensures = lambda self, protocol, time_points_per_step, result: [
+        result is self,
+        Inv(self),
+        # without failures every step was simulated: the time reached is the start plus the
+        # cumulative end of the last step - also when the protocol continues a simulation
+        implies(
+            len(self._errors) == 0 and n_rows(protocol) > 0,
+            self.variables is not None
+            and reached(self) == old(reached(self)) + row_secs(protocol, n_rows(protocol) - 1),
+        ),
+        implies(old(len(self._errors)) > 0, self.variables is old(self.variables) and unchanged(self._errors)),
+    ]
+    modifies = lambda self, protocol, time_points_per_step: [
+        field(self, "variables"),
+        field(self, "simulation_parameters"),
+        self._errors,
+        self.integrator,
+        maybe(self.variables),
+        maybe(self.simulation_parameters),
+        field(self.model, "_cache"),
+        field_map("value"),
+        field_map("unit"),
+        field_map("source"),
+    ]
+    loops = {
+        1: lambda self, protocol, t_start: [
+            Inv(self),
+            t_start == old(reached(self)),
+            old(len(self._errors)) == 0,
+            implies(len(self._errors) == 0, reached(self) == end_of(protocol, t_start, _i)),
+            implies(len(self._errors) == 0 and _i > 0, self.variables is not None),
+            self._time_shift is old(self._time_shift),
+            # the result lists are the ones the simulator had, or ones created since
+            self.variables is None or self.variables is old(self.variables) or fresh(self.variables),
+            self.simulation_parameters is None
+            or self.simulation_parameters is old(self.simulation_parameters)
+            or fresh(self.simulation_parameters),
+            self._errors is old(self._errors),
+            self.integrator is old(self.integrator),
+            self.model is old(self.model),
+        ],
+    }
